@@ -31,6 +31,9 @@ CLAIMED = {
  "C10": dict(level="other", design="3/C10", tech="ownership/lifetime typestate: structured abstract interpretation over the instantiated AST (all members, all exits incl. exceptional)",
    text="Every public member of image<> (constructors, destructor, copy/move/converting assignment, swap, all recreate overloads) is abstractly executed on the instantiated AST from every generic entry state, through every branch and with an exceptional successor at every call that may throw, descending into image's helpers and running ~image for temporaries, for interleaved/planar x {std::allocator, stateful propagating, stateful non-propagating possibly unequal}. Leak, double free/dangling view, recorded size, allocator identity, element lifetime and moved-from obligations are checked at every deallocate, overwrite of _memory and every normal and exceptional exit: whole-history resource balance follows from each member preserving the invariant. The recreate reuse-branch exception-safety defect is a known finding; the move-assign defect was repaired.",
    note="Level 'other': sound for the modelled ownership protocol; trusted axioms for allocate/deallocate and the *_pixels algorithms (construct: raw->constructed or throw leaving raw). Unknown conditions are explored both ways. A non-trivial element type cannot be instantiated with BOOST_GIL_USE_CONCEPT_CHECK, so element lifetime is decided on the image protocol, not inside algorithm.hpp's roll-back loops. Not decided: pixel values after copy; C++17 non-propagating swap path."),
+ "C09": dict(level="other", design="3/C09", tech="abstract interpretation (interval/affine/monotonicity, constant propagation) and polynomial value numbering over inlined LLVM IR; AST who-may-call rules",
+   text="For color_convert between gray, rgb, rgba and cmyk (8/16-bit and float, several layouts): output channels in range and lossless narrowing for all inputs; rgb->gray monotone per channel and within one unit of 0.30r+0.59g+0.11b, (v,v,v)->v exactly for 8-bit; gray->rgb(a) == channel_convert(gray); black/white end points between rgb, opaque rgba and cmyk; alpha handling, premultiplied-alpha equivalence, same-colour-space == per-channel channel_convert and independence of source/destination layout as equalities of value-numbering normal forms; converters access channels by colour name only and the view/algorithm entry points reach the default converter.",
+   note="Level 'other': several clauses are necessary conditions. The c/m/y outputs of rgb(a)->cmyk involve (c-k)*max/(max-k) with k=min(c,m,y): range and narrowing there need relational reasoning and are listed as not decided in spec/c09_inconclusive.json, as are rgb->cmyk->rgb within one level and cmyk interior accuracy. gray<->cmyk end points are outside the property's statement and not checked (the library maps gray black to cmyk K=0)."),
 }
 NA_REASON = {
  "C19": "sums over hash-map contents filled in data-dependent loops; no static domain in reach relates container contents to pixel counts (DESIGN 3/C19)",
